@@ -13,21 +13,21 @@ import (
 )
 
 type PropConfig struct {
-	ID        string   `json:"id"`
-	Packages  []string `json:"packages"`
-	Functions []string `json:"functions"` // keys relative to module: "x/feeds/types.SumPower"
-	Lemmas    []string `json:"lemmas"`    // lemma name prefixes
-	Ground    []string `json:"ground"`    // ground check names
-	Bounded   []string `json:"bounded"`   // bounded stand-ins (thorough only)
+	ID         string   `json:"id"`
+	Packages   []string `json:"packages"`
+	Functions  []string `json:"functions"` // keys relative to module: "x/feeds/types.SumPower"
+	Lemmas     []string `json:"lemmas"`    // lemma name prefixes
+	Ground     []string `json:"ground"`    // ground check names
+	Bounded    []string `json:"bounded"`   // bounded stand-ins (thorough only)
 	NotDecided []string `json:"not_decided"`
-	Trusted   []string `json:"trusted_base"`
+	Trusted    []string `json:"trusted_base"`
 }
 
 type Ledger struct {
-	Property  string                       `json:"property"`
-	Functions map[string]string            `json:"functions"`   // key -> source hash
-	Obls      map[string]string            `json:"obligations"` // name -> result
-	DeadExits map[string]bool              `json:"dead_exits"`
+	Property  string            `json:"property"`
+	Functions map[string]string `json:"functions"`   // key -> source hash
+	Obls      map[string]string `json:"obligations"` // name -> result
+	DeadExits map[string]bool   `json:"dead_exits"`
 }
 
 type KnownFinding struct {
@@ -323,6 +323,9 @@ func runCheck(repo, verif, id, tier string, writeLedger bool) int {
 				continue
 			}
 			verdict, detail := e.Replay(o, replayPath)
+			if verdict != "confirmed" && len(detail) > 220 {
+				detail = detail[:220] + "…"
+			}
 			if o.Kind == "ground" {
 				detail = o.Model
 				if len(detail) > 600 {
